@@ -29,6 +29,8 @@ def check_C02(rep, known):
 
 def check_C04(rep, known):
     scen_job(rep, 'ScenShoot', 'C04', [r'C04\.', r'build', r'varmap'], known)
+    # declared constraints along API histories (subject_to / clear_constraints after transcriptions): Lifecycle family
+    life_job(rep, [r'C04\.h'], known)
     # constraints declared on a sub-stage after a first transcription (multi-stage histories of the C12 family)
     recs, st = tlc.generate('ScenStages', 'ScenStages.cfg', 'C12', rep.tier, rep.seed, parts=16)
     # ... and point constraints that couple two stages, declared on either of them instead of on the parent
@@ -102,7 +104,7 @@ def check_C05(rep, known):
     scen_job(rep, 'ScenShoot', 'C05', [r'C05\.', r'build', r'varmap'], known)
     # the direct-collocation scenarios (C02 family) carry integral objectives: collocation quadrature
     scen_job(rep, 'ScenShoot', 'C02', [r'C05\.', r'build', r'varmap'], known)
-    life_job(rep, [r'C05\.'], known)
+    life_job(rep, [r'C05\.'], known)      # (C05.h: value read back; C05.g: objective along histories)
     # ocp.integral through the CasADi integrators and the explicit schemes on exactly solvable families (C03 family)
     recs, st = tlc.generate('ScenFlow', 'ScenFlow.cfg', 'C03', rep.tier, rep.seed, parts=1)
     rep.add_tlc(st)
@@ -114,6 +116,12 @@ def check_C05(rep, known):
     recs = [r for r in recs if r['sc']['reset']]
     outs = engine.pool_map('stages', 'replay', recs)
     engine.process_results(rep, recs, outs, [r'C12\.c:f'], known)
+    # integrands that mention a B-spline signal only, under DirectCollocation (ScenSpline family)
+    recs, st = tlc.generate('ScenSpline', 'ScenSpline.cfg', 'C17', rep.tier, rep.seed, parts=1)
+    rep.add_tlc(st)
+    recs = [r for r in recs if r['sc']['sub'] == 0]
+    outs = engine.pool_map('splines', 'replay', recs)
+    engine.process_results(rep, recs, outs, [r'C05\.s'], known)
     # SplineMethod: Mayer term + node sum + integral(grid='control') + integral (Milne rule on the refined grid)
     recs, st = tlc.generate('ScenSplineM', 'ScenSplineM.cfg', 'C17c', rep.tier, rep.seed, parts=1)
     rep.add_tlc(st)
@@ -325,7 +333,8 @@ def check_C03(rep, known):
 
 
 def check_C13(rep, known):
-    life_job(rep, [r'C13\.'], known)
+    # history independence of the whole NLP: every clause of the lifecycle comparison (rows, objective, parameters, start, grid)
+    life_job(rep, [r'C13\.', r'C04\.h', r'C05\.g', r'C09\.b', r'C10\.f', r'C11\.h'], known)
     trace_job(rep, known)
     gen_job(rep, known)
     # guesses given partly before and partly after a transcription (C10 family, when = split): same start as a fresh OCP
@@ -385,6 +394,7 @@ def check_C18(rep, known):
     engine.process_results(rep, [{'sc': {'kind': 'spline-saveload'}}], [{'results': splinem.saveload(), 'error': None}], [r'C18\.'], known)
     import stages as _st
     engine.process_results(rep, [{'sc': {'kind': 'nested-saveload'}}], [{'results': _st.nested_saveload(), 'error': None}], [r'C18\.'], known)
+    engine.process_results(rep, [{'sc': {'kind': 'builtin-saveload'}}], [{'results': _st.builtin_saveload(), 'error': None}], [r'C18\.'], known)
     # the exact families replayed through save/load: the *loaded* object must conform to the same predictions
     # (all variable kinds, free time, DAE + collocation, scaling, guesses, parameter kinds)
     import random
